@@ -194,6 +194,9 @@ func gen(r *sim.Rng, tier string) *sim.Case {
 			p["plen"] = r.N(70000)
 		}
 	}
+	if r.Pct(1) {
+		p["plen"] = r.Range(100000, 300000)
+	}
 	p["slen"] = []int{0, 1, 8, 16, 32, 33, 100}[r.N(7)]
 	if r.Pct(60) {
 		p["slen"] = r.N(140) // every length around the digest/block sizes of the key derivation
@@ -201,6 +204,10 @@ func gen(r *sim.Rng, tier string) *sim.Case {
 	p["alen"] = []int{0, 0, 1, 12, 16, 40}[r.N(6)]
 	if r.Pct(40) {
 		p["alen"] = r.N(100)
+	}
+	if r.Pct(3) {
+		p["slen"] = r.Range(140, 700)
+		p["alen"] = r.Range(100, 700)
 	}
 	p["variant"] = r.N(8) // bit0: plaintext as string, bit1: secret as string, bit2: aad as string
 	p["emode"] = r.Pick(6, 1, 1)
